@@ -32,6 +32,7 @@ type Flags struct {
 	Floats, Strings, Maps, Arrays  bool
 	Closures, Variadics, Recursion bool
 	Slicing, IncDec                bool
+	SmallArraysInFuncs             bool // arrays built inside function bodies stay <= 8 elements (C04: a cached large array is a recorded finding)
 	PrintInFuncs                   bool
 	Catch                          bool
 	NonDet                         bool // rand / time.now / sleep
@@ -309,6 +310,9 @@ func (g *G) lit(t Ty) string {
 		return core.Pick(g.R, []string{"true", "false"})
 	case TArr:
 		n := core.Pick(g.R, []int{0, 1, 2, 3, 4, 5, 7, 8, 9, 12})
+		if g.F.SmallArraysInFuncs && g.inFunc != nil {
+			n = g.R.Intn(4)
+		}
 		parts := make([]string, n)
 		for i := range parts {
 			parts[i] = g.IntLit()
@@ -529,6 +533,17 @@ func (g *G) Expr(t Ty, d int) string {
 			return "sqrt(" + g.lit(TFloat) + " * " + g.lit(TFloat) + ")"
 		}
 	case TArr:
+		if g.F.SmallArraysInFuncs && g.inFunc != nil {
+			switch r.Intn(4) {
+			case 0:
+				return "(" + g.lit(TArr) + " + " + g.lit(TArr) + ")" // <= 6 elements
+			case 1:
+				return "(" + g.lit(TArr) + " + [" + g.Expr(TInt, d+1) + "])"
+			case 2:
+				return "([" + g.Expr(TInt, d+1) + "] * " + strconv.Itoa(r.Intn(4)) + ")"
+			}
+			return g.lit(TArr)
+		}
 		switch r.Intn(5) {
 		case 0:
 			return "(" + g.Expr(TArr, d+1) + " + " + g.Expr(TArr, d+1) + ")"
